@@ -14,10 +14,9 @@ use rsdd::builder::cache::AllIteTable;
 use rsdd::repr::{BddPtr, VarLabel, VarOrder};
 use serde::{Deserialize, Serialize};
 use serde_json::json;
-use std::path::{Path, PathBuf};
+use std::path::PathBuf;
 use std::process::Command;
 
-const BIN_DIR: &str = "/verif/harness/target/cli/debug";
 
 #[derive(Clone, Debug, Serialize, Deserialize)]
 pub struct Case {
@@ -49,7 +48,7 @@ impl Scratch {
     fn new() -> Scratch {
         static CTR: std::sync::atomic::AtomicU64 = std::sync::atomic::AtomicU64::new(0);
         let k = CTR.fetch_add(1, std::sync::atomic::Ordering::Relaxed);
-        let dir = Path::new(VERIF_ROOT).join("work").join("c19").join(format!("{}-{}", std::process::id(), k));
+        let dir = verif_root().join("work").join("c19").join(format!("{}-{}", std::process::id(), k));
         let _ = std::fs::create_dir_all(&dir);
         Scratch { dir }
     }
@@ -73,7 +72,7 @@ struct Out {
 }
 
 fn run_tool(tool: &str, args: &[&str]) -> Result<Out, Failure> {
-    let bin = Path::new(BIN_DIR).join(tool);
+    let bin = verif_root().join("harness").join("target").join("cli").join("debug").join(tool);
     if !bin.exists() {
         // infrastructure, not a verdict: surfaces as inconclusive
         panic!("HARNESS-ABORT: tool binary {} is missing (run ./setup.sh or ./run_check.sh C19)", bin.display());
